@@ -17,6 +17,9 @@ EX01 == Corpus("EX01")
 TG01 == Corpus("TG01")
 D01 == Corpus("D01")
 LONG01 == Corpus("LONG01")
+\* pairs of extreme integers under every binary numeric / relational operator (e.g. i64::MIN with -1)
+XP == <<IntV(-1), IntV(0), IntV(1), IntV(2), EX01[1], EX01[2], EX01[3], EX01[4], EX01[5], EX01[6], EX01[8], EX01[9]>>
+PairOps == <<K_mod, K_div, K_sub, K_add, K_mul, K_min, K_max, K_lt, K_lte, K_eq, K_seq, K_in, K_substr, K_merge>>
 LongOps == <<K_max, K_min, K_add, K_mul, K_sub, K_div, K_mod, K_eq, K_lt, K_gte, K_cat, K_in>>
 
 VARIABLES c, phase
@@ -30,13 +33,16 @@ InFamily(x) ==
   \/ x \in [kind : {"tag"}, k : 1..Len(OpSeq), n : 0..4, j : {0}, v : 1..Len(TG01), d : {4}]
   \* very long numeric strings (hundreds of digits in every radix) next to an ordinary operand
   \/ x \in [kind : {"long"}, k : 1..Len(LongOps), n : {2}, j : {1, 2}, v : 1..Len(LONG01), d : {1}]
+  \/ x \in [kind : {"xpair"}, k : 1..Len(PairOps), n : {2}, j : 1..Len(XP), v : 1..Len(XP), d : {1}]
   \* extreme values as the DATA under index / key lookups
   \/ x \in [kind : {"data"}, k : {1}, n : {0}, j : 1..6, v : 1..Len(EX01), d : {1}]
 
 RuleOf(cc) ==
-  LET k == IF cc.kind = "long" THEN K_add ELSE OpSeq[cc.k] IN
+  LET k == IF cc.kind \in {"long", "xpair"} THEN K_add ELSE OpSeq[cc.k] IN
   CASE cc.kind = "ext" -> Op(k, [q \in 1..cc.n |-> IF q = cc.j THEN EX01[cc.v] ELSE BenignAt(k, q, 1)])
     [] cc.kind = "tag" -> Op(k, [q \in 1..cc.n |-> TG01[cc.v]])
+    [] cc.kind = "xpair" -> IF PairOps[cc.k] = K_substr THEN Op(K_substr, <<Str(<<104, 233, 108, 108, 111>>), XP[cc.j], XP[cc.v]>>)
+                            ELSE Op(PairOps[cc.k], <<XP[cc.j], XP[cc.v]>>)
     [] cc.kind = "long" -> Op(LongOps[cc.k], IF cc.j = 1 THEN <<LONG01[cc.v], IntV(1)>> ELSE <<IntV(1), LONG01[cc.v]>>)
     [] cc.kind = "data" ->
          CASE cc.j = 1 -> Op(K_var, <<IntV(-1)>>)
@@ -61,5 +67,5 @@ ExportCases ==
   phase = "done" =>
     Export(<<c.kind, c.k, c.n, c.j, c.v, c.d>>, RuleOf(c), DataOf(c), Outcome(c), <<"C01">>,
            \* C01 pins the outcome CLASS (a value or an error, never a crash); the value itself belongs to the operator's property
-           [zlax |-> TRUE, logseq |-> FALSE, okonly |-> TRUE, own |-> OwnerOf(IF c.kind = "long" THEN LongOps[c.k] ELSE OpSeq[c.k])])
+           [zlax |-> TRUE, logseq |-> FALSE, okonly |-> TRUE, own |-> OwnerOf(CASE c.kind = "long" -> LongOps[c.k] [] c.kind = "xpair" -> PairOps[c.k] [] OTHER -> OpSeq[c.k])])
 =============================================================================
